@@ -137,6 +137,11 @@ class HostileDriver(ClientDriver):
             method, names, valid = tmpl[rng.randrange(len(tmpl))]
             args = list(valid)
             kind = rng.random()
+            if method == 'server.version' and rng.random() < 0.7:
+                # only the first server.version of a session looks at its arguments: ask on a fresh session
+                hc.disconnect()
+                if not hc.connect():
+                    break
             if method == 'server.add_peer' and kind < 0.7:
                 args = [rng.choice(feats)]
             elif kind < 0.22 and args:
@@ -242,6 +247,60 @@ class HostileDriver(ClientDriver):
                 self.probe('c16.good_client_notified')
         hc.disconnect()
 
+    def op_hostile_slow(self, op):
+        """Requests refused for a reason of the server's own - its request time-out while the disk is slow:
+        the history reads made on behalf of client requests stall for longer than REQUEST_TIMEOUT (a per-run
+        knob, 2-5 s here).  A request that is answered with an error - of whatever kind - must not have added
+        a subscription (session state is compared before / after, as for every other refusal)."""
+        w = self.w
+        sim = w.sim
+        if w.server is None or w.server.smgr is None:
+            return
+        rng = random.Random(op['seed'])
+        hc = w.new_client('hostile-slow', addr=('9.9.9.8', None))
+        if not hc.connect():
+            return
+        self.ask(hc, 'server.version', ['slow', '1.4.2'])
+        saved = (sim.stall_boost, sim.stall_max, sim.preempt)
+        rt = w.k['request_timeout']
+        sim.preempt = True
+        sim.stall_max = 4.0 * rt
+        sim.stall_boost = ('read_history', 1.0, 'RPCSession', 'timed')
+        try:
+            for _ in range(op.get('n', 6)):
+                if not (hc.connected and hc.conn.alive):
+                    break
+                method = rng.choice(['blockchain.scripthash.subscribe'] * 3 + ['blockchain.scripthash.get_history',
+                                                                               'blockchain.headers.subscribe'])
+                params = [] if method.endswith('headers.subscribe') else [SH[rng.randrange(len(SH))]]
+                sess = self.session_of(hc)
+                before = self.snapshot(sess)
+                rec = self.ask(hc, method, params, timeout=400.0)
+                self.probe('c16.slow_requests')
+                if w.server is None:
+                    self.violate('C16', 'server.died', f'the server stopped after {method}')
+                    return
+                if rec is None or rec.get('closed'):
+                    continue
+                if 'error' in rec:
+                    code = rec['error'].get('code') if isinstance(rec['error'], dict) else None
+                    if code == INTERNAL_ERROR:
+                        self.violate('C16', 'internal_error', f'{method} {params} failed with an internal '
+                                     f'exception: {str(rec["error"])[:160]}')
+                        continue
+                    if code == -102:
+                        self.probe('c16.slow_request_timed_out')
+                    after = self.snapshot(self.session_of(hc))
+                    if before[0] is not None and after[0] is not None and \
+                            (set(after[0]) != set(before[0]) or after[2] != before[2]):
+                        self.violate('C16', 'state_changed_on_error',
+                                     f'{method} {params} was refused ({str(rec["error"])[:80]}) but the '
+                                     f"session's subscriptions changed: script hashes "
+                                     f'{len(before[0])} -> {len(after[0])}, headers {before[2]} -> {after[2]}')
+        finally:
+            sim.stall_boost, sim.stall_max, sim.preempt = saved
+        hc.disconnect()
+
     def op_hostile_exact(self, op):
         """Explicit requests (used by committed replays of findings)."""
         w = self.w
@@ -288,6 +347,12 @@ class HostileFamily(SubsFamily):
         k['stall_p'] = 0.0      # the hostile client is the fault source under study
         k['peer_discovery'] = 'on'
         k['extra_env'] = dict(PEER_ANNOUNCE='')
+        if rng.random() < 0.5:
+            # configuration-dependent paths: a client-name filter
+            k['extra_env']['DROP_CLIENT'] = rng.choice(['badclient.*', '.*[Xx]pectrum', '1\\.[0-3]', 'None'])
+        slow = rng.random() < 0.3
+        if slow:
+            k['request_timeout'] = rng.choice([2, 3, 5])
         nclients = rng.randint(1, 2)
         for c in range(nclients):
             plan.append(dict(op='c_hsub', c=c))
@@ -297,6 +362,8 @@ class HostileFamily(SubsFamily):
         plan.append(dict(op='settle'))
         for _ in range(rng.randint(1, 2)):
             plan.append(dict(op='hostile', n=rng.choice([60, 150, 300]), seed=rng.getrandbits(32)))
+            if slow:
+                plan.append(dict(op='hostile_slow', n=rng.randint(3, 8), seed=rng.getrandbits(32)))
             if rng.random() < 0.5:
                 n = rng.randint(1, 2)
                 plan.append(dict(op='mine', n=n, ntx=ntx_list(rng, n), seed=rng.getrandbits(32)))
